@@ -274,6 +274,12 @@ def x6_terminate_broken(n=2, with_user=False):
              "C02 after terminate_broken the pool is not flagged broken or workers are still registered":
                  z3.And(sl.all_ended(), z3.Or(z3.Not(S["flags.broken?"]), S["processes.m"] != 0, S["pending.m"] != 0)),
              "C01 terminate_broken blocks for ever": z3.Not(sl.all_ended())}
+    # C20: once terminate_broken has returned, the executor-owned resources are released
+    stuck["C20 after terminate_broken a queue / the wakeup pipe is still open or a started worker was not joined"] = \
+        z3.And(sl.all_ended(), S["fail"] == 0,
+               z3.Or(z3.Not(S["callq.closed"]), z3.Not(S["wakeup._closed"]), z3.Not(S["wakeup.pipe.closed"]),
+                     (S["ptable.started"] & ~S["ptable.joined"]) != 0, S["ptable.alive"] != 0,
+                     S["shutdown_lock.v"] != 1, S["mgmt.sl.v"] != 1))
     if with_user:
         # every future that submit() handed out is resolved once the manager is done, or submit() raised
         stuck["C01/C02 a future accepted by submit() while the pool broke is never resolved"] = z3.And(sl.all_ended(), undone)
@@ -325,3 +331,47 @@ def x7_reusable_race():
         "executor constructor / shutdown(wait=True) / _resize are primitives here (decided in C05/C06/C10); <= 3 executor objects",
         "initial singleton state: absent, or one instance (healthy, broken or shut down) built with arbitrary arguments; ids consistent",
         "arguments: max_workers 1..3, one configuration parameter (timeout) with 2 values, reuse='auto', kill_workers=False"])
+
+
+def x8_manager_drain(n=1, dispatched=False):
+    """Graceful shutdown drains: the manager thread's real run() loop (dispatch, wait, result processing,
+    shutdown detection, join_executor_internals) with one environment worker, after shutdown(wait=True)
+    has flagged the executor and woken the manager, with `n` tasks submitted but not yet dispatched."""
+    from .prims_exec import R_VALUE, R_TASKEXC
+    sl = ExecSlice(n_ids=max(n, 2), n_workers=2, callq_cap=3, wakeup_cap=2)
+    S = sl.S
+    _obs_basic(sl)
+    sl.thread("M", "manager_run", [("o", "mt")])
+    if dispatched:
+        sl.thread("W0", "env_worker_holding", [("o", "callq"), ("o", "resq.w"), ("o", "ptable"), ("c", 0),
+                                               ("rec", "CallItem", {"i": ("c", 0), "?": ("c", True)})])
+    else:
+        sl.thread("W0", "env_worker", [("o", "callq"), ("o", "resq.w"), ("o", "ptable"), ("c", 0)])
+    sl.finish()
+    N = max(n, 2)
+    first = 1 if dispatched else 0  # id 0 is already in the worker's hands
+    init = z3.And(*_consistent(S, N), S["workids.head"] == first, S["workids.tail"] == n, S["pending.m"] == (1 << n) - 1,
+                  S["running.m"] == first, S["callq.buf"] == 0,
+                  *[S[f"futures.st.{i}"] == (RUNNING if (dispatched and i == 0) else PENDING) for i in range(n)],
+                  S["processes.m"] == 1, S["ptable.alive"] == 1, S["ptable.started"] == 1, S["ptable.exitlock"] == 0,
+                  S["ptable.next"] == 1, S["ex._max_workers"] == 1, S["mgmt.sl.v"] == 1, S["shutdown_lock.v"] == 1,
+                  S["wakeup.pipe.n"] == 1, S["callq.free"] == 3, S["resq.pipe.n"] == 0,
+                  S["flags.broken?"] == False, S["weakref.dead"] == False, S["flags.shutdown"] == True,
+                  S["flags.kill_workers"] == False, *_refs_present(S))
+    resolved = z3.And(*[z3.And(S[f"futures.st.{i}"] == FINISHED,
+                               z3.Or(S[f"futures.res.{i}"] == R_VALUE, S[f"futures.res.{i}"] == R_TASKEXC),
+                               S[f"futures.sets.{i}"] == 1) for i in range(n)])
+    safety = {"C05 the manager thread died during a graceful shutdown": S["fail"] != 0,
+              "C05 graceful shutdown flagged the pool broken": S["flags.broken?"],
+              "C03 a work id was dispatched twice": S["callq.dupput"]}
+    stuck = {"C05 graceful shutdown never completes (manager or worker blocked for ever)": z3.Not(sl.all_ended()),
+             "C05 a task submitted before the shutdown did not deliver its own outcome exactly once": z3.And(sl.all_ended(), z3.Not(resolved)),
+             "C05/C20 after the shutdown a worker is still registered/unjoined or a queue is still open":
+                 z3.And(sl.all_ended(), z3.Or(S["processes.m"] != 0, S["ptable.alive"] != 0, (S["ptable.started"] & ~S["ptable.joined"]) != 0,
+                                              z3.Not(S["callq.closed"]), z3.Not(S["wakeup._closed"]), S["pending.m"] != 0,
+                                              S["running.m"] != 0))}
+    witness = z3.And(sl.all_ended(), resolved)
+    return sl, dict(init=init, safety=safety, stuck=stuck, witness=witness, assumptions=[
+        f"initial state: healthy 1-worker pool, {n} task(s) submitted and not yet dispatched, shutdown(wait=True) already flagged the executor and sent its wake-up",
+        "the worker is an environment process: takes items in order, answers each with a value or an exception, on a sentinel announces its pid, takes its exit lock and ends",
+        "result messages are whole (no partial sends: finding F5 is outside)"])
